@@ -18,12 +18,17 @@ MANIFEST = {
             "every decoder that is a fold of a byte automaton and instantiated for UTF-8 (strict) and ISO-8859-1; "
             "utf8 decode/encode round trip for all 1,112,064 Unicode scalar values (exhaustive vm_compute sweep per code "
             "point, induction over strings); the fuelled read loop yields non-empty chunks <= chunk_size that concatenate "
-            "to the bytes from the clamped start to EOF; laziness/buffer_now and snapshots over an explicit mutable "
-            "source; MIME render/parse round trip for the wf_ct grammar. Tied to /repo on every run by differential "
+            "to the bytes from the clamped start to EOF for EVERY read-size oracle of the stream (short reads that are "
+            "not end of file: pipes, sockets, raw devices); every history of reads on ONE content object (readers "
+            "created, advanced alternately, abandoned, drained, as_text in between): each complete read is the "
+            "whole-string decode, by an invariant over the history; laziness/buffer_now and snapshots over an explicit "
+            "mutable source; MIME render/parse round trip for the wf_ct grammar. Tied to /repo on every run by differential "
             "execution of model and implementation inside coqc; the oracle for a failing input is the executable "
             "statement spec_okb, proved to imply the readable Spec.",
     "note": "Full except: json.dumps is a Section variable (C16_json); charsets other than UTF-8/ISO-8859-1 and the OS "
-            "file layer are not modelled; the email header parser is modelled for the fragment __repr__ produces from "
+            "file layer are not modelled (read histories over utf-16/utf-32/utf-8-sig/utf-7/cp1252 text are a SAMPLED "
+            "extension: the case carries Python's bytes.decode answer, spec_okb judges every complete read against it, "
+            "the model assumes it); the email header parser is modelled for the fragment __repr__ produces from "
             "content types in mime_dom (token type/subtype/parameter names, values without quote, without '=?', not "
             "ending in an odd run of backslashes, no U+0085/U+2028/U+2029). Known finding F16: inside that domain a "
             "content type survives repr+_make_content_type iff wf_ct (no backslash in a value, lower-case parameter "
@@ -33,7 +38,7 @@ MANIFEST = {
                  "induction, list parsing lemmas) + model/implementation correspondence in coqc",
     "ref": "6 C16",
 }
-RULE = ("ten scenario kinds: text_content over NUL/BMP/astral/combining/boundary code points; json_content over random "
+RULE = ("eleven scenario kinds: text_content over NUL/BMP/astral/combining/boundary code points; json_content over random "
         "JSON values; Content(ct, chunks) with explicit chunk lists (empty chunks, cuts inside sequences, valid and "
         "invalid UTF-8, both charsets in several spellings, no charset, non-text types); byte strings <= 8 (quick) / "
         "<= 12 (thorough) bytes under ALL 2^(n-1) cut patterns, each also with empty chunks in front/between/behind "
@@ -41,24 +46,52 @@ RULE = ("ten scenario kinds: text_content over NUL/BMP/astral/combining/boundary
         "an instrumented BytesIO and content_from_file over real temporary files (builtin open rebound in "
         "testtools.content to count reads) for lengths around multiples of chunk_size, offsets before/at/after EOF, "
         "both origins, both buffer_now values, source overwritten between creation and iteration, iterated twice; "
+        "the same over streams whose read(n) returns FEWER than n bytes before end of file, sized by a read-size "
+        "oracle (one entry per read() call, clamped to 1..chunk_size): a duck-typed wrapper, an io.RawIOBase subclass "
+        "(read -> readinto), an io.FileIO over a real OS pipe fed piecewise, and open() rebound to return such a "
+        "device-like object - ALL oracles of <= 3 (quick) / <= 4 (thorough) sizes for chunk_size 2 and 3 and data "
+        "lengths 0..5 / 0..7, then random oracles incl. out-of-range entries; "
+        "histories of reads on ONE Content object over [new reader, next(i), drain(i), as_text]: ALL histories of "
+        "<= 4 (quick) / <= 5 (thorough) operations over <= 2 readers on contents cut inside multi-byte sequences, "
+        "then random histories (<= 3 readers, abandoned readers, unknown reader ids, undecodable data, non-text "
+        "types, unknown charsets) - only COMPLETE reads are observed (joined text or the exception), not how the "
+        "text is cut into pieces; sampled: such histories over text encoded in utf-16/utf-32/utf-8-sig/utf-7/"
+        "utf-16-le/-be/utf-32-be/cp1252 (BOM-detecting, BOM-stripping and stateful codecs) judged against "
+        "bytes.decode; "
         "_copy_content/gather_details snapshots of such sources, and of details whose callback serves an in-memory "
         "list (a generator over it / the SAME list object every call / a fresh list / a tuple) gathered through "
         "_copy_content, gather_details or TestCase.useFixture and then mutated (append, clear, replace); content_from_reader "
         "over the same four callback kinds with both buffer_now values, list mutated after creation; Content.__eq__ on pairs differing in type, subtype, "
         "parameters (incl. order) or bytes (incl. same bytes chunked differently); content types from the wf_ct "
         "grammar and its boundary inside mime_dom. non-trivial = text with a non-ASCII code point / >= 2 chunks / "
-        ">= 2 bytes under splits / non-empty source / parameters present; distinct = distinct JSON")
+        ">= 2 bytes under splits / non-empty source / parameters present / history of >= 2 operations over >= 2 "
+        "chunks; distinct = distinct JSON")
 TRUSTED = ["codecs incremental decoders and str.encode('utf8') are compared with coq/Model/Utf8.v on every generated "
            "text and byte string (which inputs are rejected, too), not assumed",
            "io.BytesIO / open(path,'rb') seek and read semantics as modelled by Model.Content.seek_pos/read_at "
            "(compared on every reader case)",
            "reads of files are counted by rebinding the name `open` in testtools.content to a wrapper for the "
-           "duration of one case"]
+           "duration of one case",
+           "short reads: the three stream doubles (CountingStream, SegmentedRaw(io.RawIOBase), FedPipe(io.FileIO over "
+           "os.pipe(), the writer's side played in the same thread just before each read)) deliver what "
+           "Model.Content.next_size says; the pipe flavour shows that a real unbuffered file object does return "
+           "short reads that are not EOF",
+           "a history is driven single-threaded: interleavings of several readers are explicit alternations of "
+           "next() calls (what two threads could do to one Content object, made deterministic)"]
 ASSUMPTIONS = ["json.dumps is an oracle: the case carries json.dumps(data) computed by the harness; C16_json is stated "
                "for an arbitrary dumps function (round trip = loads . dumps is json's contract)",
                "charset names are limited to the spellings in Model.Content.utf8_names/latin1_names (after "
                "case/'-'/' ' normalisation); other codecs are not modelled",
-               "strings in content types are compared as UTF-8 byte strings (bytewise order = code point order)"]
+               "strings in content types are compared as UTF-8 byte strings (bytewise order = code point order)",
+               "SAMPLED extension (not carried by the Coq codec model): for read histories with a charset that "
+               "codec_of does not know but Python does (utf-16, utf-32, utf-8-sig, utf-7, utf-16-le/-be, utf-32-be, "
+               "cp1252) the case carries oracle = bytes.decode(charset) of the joined bytes; spec_okb demands every "
+               "complete read to equal it, the model returns it for every complete read (i.e. assumes these codecs' "
+               "incremental decoders obey the chunking law and that readers are independent); only data produced by "
+               "str.encode(charset) is generated (BOM-carrying for utf-16/utf-32) - a BOM-less 'utf-16' byte string is "
+               "outside: CPython's incremental utf-16 decoder rejects it while bytes.decode assumes native order",
+               "streams whose read() returns None (non-blocking, no data yet) or more than n bytes are outside the "
+               "read-size oracle"]
 EXPLANATION = ("Theorems in coq/Props/C16.v; correspondence: the real Content/ContentType/_make_content_type/"
                "_copy_content of the working tree against coq/Model/{Content,Utf8,MimeCt}.v on generated scenarios; "
                "glue samples: out-of-domain F16 probes (RFC 2047/2231 look-alikes, escaped closing quote) recorded "
@@ -79,15 +112,24 @@ def _exn(e):
 # ---------------------------------------------------------------------------
 # drivers
 # ---------------------------------------------------------------------------
+def next_size(n, sizes):
+    """Model.Content.next_size: how many bytes the next read(n) hands out at most.  `sizes` is the scenario's ONE
+    oracle list, shared by every stream object of the case and popped once per read() call."""
+    if not sizes:
+        return n
+    return max(1, min(sizes.pop(0), n))
+
+
 class CountingStream:
-    """Delegates to a real stream, counting read() calls."""
+    """Delegates to a real stream, counting read() calls.  With a non-empty oracle it behaves like a file object over
+    an unbuffered device: read(n) returns fewer than n bytes although more follow."""
 
-    def __init__(self, inner, counter):
-        self.inner, self.counter = inner, counter
+    def __init__(self, inner, counter, sizes=None):
+        self.inner, self.counter, self.sizes = inner, counter, sizes if sizes is not None else []
 
-    def read(self, *a):
+    def read(self, n):
         self.counter[0] += 1
-        return self.inner.read(*a)
+        return self.inner.read(next_size(n, self.sizes))
 
     def seek(self, *a):
         return self.inner.seek(*a)
@@ -104,6 +146,59 @@ class CountingStream:
 
     def __exit__(self, *a):
         return self.inner.__exit__(*a)
+
+
+class SegmentedRaw(io.RawIOBase):
+    """An unbuffered raw stream (io.RawIOBase subclass; read(n) is RawIOBase.read -> readinto) over a BytesIO that
+    hands out its data in pieces, as recv() does: each readinto delivers at most the oracle's next size."""
+
+    def __init__(self, inner, counter, sizes):
+        io.RawIOBase.__init__(self)
+        self.inner, self.counter, self.sizes = inner, counter, sizes
+
+    def readable(self):
+        return True
+
+    def seekable(self):
+        return True
+
+    def readinto(self, b):
+        self.counter[0] += 1
+        data = self.inner.read(next_size(len(b), self.sizes))
+        b[:len(data)] = data
+        return len(data)
+
+    def seek(self, *a):
+        return self.inner.seek(*a)
+
+    def tell(self):
+        return self.inner.tell()
+
+
+class FedPipe(io.FileIO):
+    """A real OS pipe read through an unbuffered file object (io.FileIO, what os.fdopen(fd, 'rb', buffering=0)
+    returns).  The writer's side is played in the same thread: just before each read it has written the next piece
+    (oracle size) of the source into the pipe, so the kernel hands FileIO.read(n) a SHORT read that is not end of
+    file.  End of file (nothing left in the source) is answered without touching the pipe."""
+
+    def __init__(self, inner, counter, sizes):
+        r, self.w = os.pipe()
+        io.FileIO.__init__(self, r, "rb")
+        self.inner, self.counter, self.sizes = inner, counter, sizes
+
+    def read(self, n=-1):
+        self.counter[0] += 1
+        piece = self.inner.read(next_size(n, self.sizes))
+        if not piece:
+            return b""
+        os.write(self.w, piece)
+        return io.FileIO.read(self, n)
+
+    def close(self):
+        if getattr(self, "w", None) is not None:
+            os.close(self.w)
+            self.w = None
+        io.FileIO.close(self)
 
 
 def _ct(j):
@@ -174,10 +269,17 @@ class Source:
         self.case = case
         self.counter = [0]
         self.path = None
+        self.sizes = sizes = list(case.get("sizes", []))
         if case["kind"] == "bytesio":
             self.inner = io.BytesIO(bytes(case["data0"]))
             self.inner.seek(case["pos0"])
-            self.stream = CountingStream(self.inner, self.counter)
+            fl = case.get("flavour", "plain")
+            if fl == "raw":
+                self.stream = SegmentedRaw(self.inner, self.counter, sizes)
+            elif fl == "pipe":
+                self.stream = FedPipe(self.inner, self.counter, sizes)
+            else:
+                self.stream = CountingStream(self.inner, self.counter, sizes)
         else:
             import tempfile
             d = os.path.join(ROOT, ".work", "c16-files")
@@ -188,7 +290,7 @@ class Source:
             counter = self.counter
 
             def counting_open(path, mode="r", *a, **kw):
-                return CountingStream(io.open(path, mode, *a, **kw), counter)
+                return CountingStream(io.open(path, mode, *a, **kw), counter, sizes)
             C.open = counting_open
 
     def content(self, buffer_now):
@@ -212,6 +314,8 @@ class Source:
                 f.write(bytes(c["data1"]))
 
     def close(self):
+        if self.case.get("flavour") == "pipe":
+            self.stream.close()
         if self.path is not None:
             try:
                 del self.C.open
@@ -296,6 +400,8 @@ def drive(case):
         a = C.Content(_ct(case["ta"]), lambda: ca)
         b = C.Content(_ct(case["tb"]), lambda: cb)
         return {"eq": bool(a == b), "ne": bool(a != b)}
+    if k == "hist":
+        return drive_hist(case)
     if k == "mime":
         from testtools.testresult.real import _make_content_type
         r = repr(_ct(case["ct"]))
@@ -304,6 +410,51 @@ def drive(case):
         except Exception:      # noqa - the function raises bare Exception("Can't parse type ...")
             return {"raised": "ExceptionCantParse"}
     raise AssertionError(k)
+
+
+def drive_hist(case):
+    """A history of reads on ONE Content object.  Only COMPLETE reads are observed (what a reader collected from its
+    first piece to exhaustion, joined - or the exception that ended it; as_text()): how the text is cut into pieces
+    is not pinned down by the statement."""
+    from testtools import content as C
+    chunks = [bytes(x) for x in case["chunks"]]
+    c = C.Content(_ct(case["ct"]), lambda: chunks)
+    readers = []
+
+    def step(rd):
+        if rd["end"] is not None:
+            return
+        try:
+            rd["acc"].append(next(rd["it"]))
+        except StopIteration:
+            rd["end"] = "stop"
+        except EXPECTED as e:
+            rd["end"] = _exn(e)
+
+    out = []
+    for op in case["ops"]:
+        if op[0] == "new":
+            try:
+                it = iter(c.iter_text())
+            except EXPECTED as e:
+                out.append({"new": _exn(e)})
+                continue
+            readers.append({"it": it, "acc": [], "end": None})
+            out.append({"new": None})
+        elif op[0] == "astext":
+            out.append({"read": _text(c.as_text)})
+        elif op[1] >= len(readers):
+            out.append("noiter")
+        elif op[0] == "next":
+            step(readers[op[1]])
+            out.append("stepped")
+        else:
+            rd = readers[op[1]]
+            while rd["end"] is None:
+                step(rd)
+            out.append({"read": {"ok": [ord(ch) for ch in "".join(rd["acc"])]} if rd["end"] == "stop"
+                        else {"raised": rd["end"]}})
+    return {"rs": out}
 
 
 def _list_source(case):
@@ -422,7 +573,8 @@ def g_reader(c):
     return q.record([("r_kind", "KBytesIO" if c["kind"] == "bytesio" else "KFile"),
                      ("r_data0", g_bytes(c["data0"])), ("r_pos0", q.nat(c["pos0"])), ("r_seek", sk),
                      ("r_chunk", q.nat(c["chunk"])), ("r_buffer", q.boolean(c.get("buffer", False))),
-                     ("r_data1", g_bytes(c["data1"])), ("r_pos1", q.nat(c["pos1"]))])
+                     ("r_data1", g_bytes(c["data1"])), ("r_pos1", q.nat(c["pos1"])),
+                     ("r_sizes", q.lst([q.nat(x) for x in c.get("sizes", [])]))])
 
 
 def term(case, o):
@@ -466,6 +618,24 @@ def term(case, o):
         return q.pair("(IEq %s %s %s %s)" % (g_ct(case["ta"]), g_chunks(case["ca"]), g_ct(case["tb"]),
                                              g_chunks(case["cb"])),
                       "(OEq %s %s)" % (q.boolean(o["eq"]), q.boolean(o["ne"])))
+    if k == "hist":
+        ops = []
+        for op in case["ops"]:
+            ops.append({"new": "HNew", "astext": "HAsText"}[op[0]] if len(op) == 1
+                       else "(%s %s)" % ({"next": "HNext", "finish": "HFinish"}[op[0]], q.nat(op[1])))
+        rs = []
+        for r in o["rs"]:
+            if r == "noiter":
+                rs.append("RNoIter")
+            elif r == "stepped":
+                rs.append("RStepped")
+            elif "new" in r:
+                rs.append("(RNew %s)" % q.option(r["new"]))
+            else:
+                rs.append("(RRead %s)" % g_tres(r["read"]))
+        return q.pair("(IHist %s %s %s %s)" % (g_ct(case["ct"]), g_chunks(case["chunks"]),
+                                               q.option(case.get("oracle"), g_tres), q.lst(ops)),
+                      "(OHist %s)" % q.lst(rs))
     if k == "mime":
         r = "(Ok %s)" % g_ct(o["ok"]) if "ok" in o else "(Raised %s)" % o["raised"]
         return q.pair("(IMime %s)" % g_ct(case["ct"]), "(OMime %s %s)" % (g_ct(case["ct"]), r))
@@ -491,6 +661,8 @@ def perturb(case, o):
         o["it1"] = {"ok": o["it1"].get("ok", []) + [[33]]}
     elif k == "eq":
         o["eq"] = not o["eq"]
+    elif k == "hist":
+        o["rs"] = o["rs"] + ["noiter"]
     elif k == "mime":       # compared by "did it come back": flip that
         ct = case["ct"]
         o = {"ok": ["perturbed", "x", []]} if wf_ct(ct) else {"ok": [ct[0], ct[1], sorted(ct[2])]}
@@ -724,11 +896,37 @@ def rand_json(rng, d=0):
     return dict(("".join(chr(x) for x in rand_text(rng, 3)) + str(i), rand_json(rng, d + 1)) for i in range(rng.randint(0, 3)))
 
 
-def mk_reader(kind, data0, pos0, seek, chunk, buffer, data1, pos1):
+def mk_reader(kind, data0, pos0, seek, chunk, buffer, data1, pos1, sizes=(), flavour="plain"):
+    """sizes: the read-size oracle (empty = every read fills the request); flavour of a 'bytesio' source: 'plain'
+    (duck-typed wrapper of a BytesIO), 'raw' (io.RawIOBase subclass), 'pipe' (io.FileIO over a real OS pipe; cannot
+    seek, so only without seek_offset).  A 'file' source with sizes is a path whose open() yields a device-like
+    object with short reads."""
     if kind == "file":
         pos0 = pos1 = 0
+        flavour = "plain"
+    if flavour == "pipe" and seek is not None:
+        flavour = "raw"
     return {"k": "reader", "kind": kind, "data0": data0, "pos0": pos0, "seek": seek, "chunk": chunk, "buffer": buffer,
-            "data1": data1, "pos1": pos1}
+            "data1": data1, "pos1": pos1, "sizes": list(sizes), "flavour": flavour}
+
+
+def rand_sizes(rng, chunk):
+    """a read-size oracle: mostly short reads (1..chunk-1), some full, a few out of range (clamped to 1..chunk)"""
+    r = rng.random()
+    if r < 0.45:
+        return []
+    out = []
+    for _ in range(rng.choice([1, 1, 2, 3, 4, 6, 9])):
+        c = rng.random()
+        if c < 0.6:
+            out.append(rng.randint(1, max(1, chunk - 1)))
+        elif c < 0.8:
+            out.append(chunk)
+        elif c < 0.9:
+            out.append(1)
+        else:
+            out.append(rng.choice([0, chunk + 1, chunk + 7]))
+    return out
 
 
 def seek_choices(n, chunk):
@@ -745,8 +943,77 @@ def rand_reader(rng):
     data0 = [(i % 99) + 1 for i in range(n0)]
     data1 = [(i % 99) + 101 for i in range(n1)]
     seek = rng.choice(seek_choices(rng.choice([n0, n1]), chunk))
-    return mk_reader(rng.choice(["bytesio", "file"]), data0, rng.choice([0, 0, 1, n0 // 2, n0, n0 + 2]), seek, chunk,
-                     rng.random() < 0.5, data1, rng.choice([0, 0, 1, n1 // 2, n1, n1 + 2]))
+    sizes = rand_sizes(rng, chunk)
+    if sizes and rng.random() < 0.5:
+        seek = None
+    return mk_reader(rng.choice(["bytesio", "bytesio", "file"]), data0, rng.choice([0, 0, 1, n0 // 2, n0, n0 + 2]), seek,
+                     chunk, rng.random() < 0.5, data1, rng.choice([0, 0, 1, n1 // 2, n1, n1 + 2]), sizes,
+                     rng.choice(["plain", "raw", "pipe"]) if sizes else rng.choice(["plain", "plain", "raw", "pipe"]))
+
+
+# ---- histories of reads on one content ----
+HIST_OPS = [["new"], ["next", 0], ["next", 1], ["finish", 0], ["finish", 1], ["astext"]]
+
+
+def hist_sequences(maxlen):
+    """every operation sequence up to maxlen over at most two readers that only addresses readers that exist"""
+    out = []
+
+    def go(seq, n):
+        if seq:
+            out.append(list(seq))
+        if len(seq) == maxlen:
+            return
+        for op in HIST_OPS:
+            if op[0] == "new":
+                if n < 2:
+                    go(seq + [op], n + 1)
+            elif op[0] == "astext" or op[1] < n:
+                go(seq + [op], n)
+    go([], 0)
+    # only histories in which some reader COMPLETES a read after something else happened
+    return [q_ for q_ in out if q_[-1][0] in ("finish", "astext") and len(q_) >= 2]
+
+
+def rand_hist_ops(rng, nchunks):
+    ops, n = [], 0
+    for _ in range(rng.randint(2, 9)):
+        r = rng.random()
+        if n == 0 or (r < 0.2 and n < 3):
+            if n == 0 and r < 0.15:
+                ops.append(["astext"])
+                continue
+            ops.append(["new"])
+            n += 1
+        elif r < 0.65:
+            ops.append(["next", rng.randrange(n)])
+        elif r < 0.8:
+            ops.append(["finish", rng.randrange(n)])
+        elif r < 0.97:
+            ops.append(["astext"])
+        else:
+            ops.append([rng.choice(["next", "finish"]), n + rng.randint(0, 1)])     # no such reader
+    if rng.random() < 0.8:                 # drain what is still open, in a random order (some stay abandoned)
+        order = list(range(n))
+        rng.shuffle(order)
+        for i in order:
+            if rng.random() < 0.8:
+                ops.append(["finish", i])
+    if rng.random() < 0.5:
+        ops.append(["astext"])
+    return ops
+
+
+ORACLE_CODECS = ["utf-16", "utf-32", "utf-8-sig", "UTF-16", "utf_32", "utf-16-le", "utf-16-be", "utf-32-be", "cp1252",
+                 "utf-7"]
+
+
+def oracle_of(data, codec):
+    try:
+        return {"ok": [ord(ch) for ch in bytes(data).decode(codec)]}
+    except UnicodeDecodeError:
+        return {"raised": "UnicodeDecodeError"}
+
 
 
 EQ_CTS = [["text", "plain", []], ["text", "plain", [["charset", "utf8"]]], ["text", "plain", [["charset", "utf-8"]]],
@@ -843,6 +1110,59 @@ def generate(rng, tier):
                     cases.append(mk_reader(kind, list(range(1, n + 1)), 1, seek, chunk, buffer, list(range(101, 101 + n + 1)), 2))
     for _ in range(900 if quick else 12000):
         cases.append(rand_reader(rng))
+    # ---- streams with short reads that are not end of file: every oracle of up to 3 (quick) / 4 sizes ----
+    for chunk in (2, 3):
+        seqs = [[]]
+        for ln in range(1, (3 if quick else 4) + 1):
+            seqs += [list(t) for t in itertools.product(range(1, chunk + 1), repeat=ln)]
+        for n in range(0, 6 if quick else 8):
+            for i, sizes in enumerate(seqs):
+                if not sizes:
+                    continue
+                data = list(range(1, n + 1))
+                cases.append(mk_reader("file" if i % 4 == 3 else "bytesio", data, 0, None, chunk, (i + n) % 2 == 0,
+                                       [x + 100 for x in data] + [7], 0, sizes, ("raw", "pipe", "plain")[i % 3]))
+    for fl in ("plain", "raw", "pipe"):        # the classic: a short first read, the rest follows
+        for buffer in (False, True):
+            cases.append(mk_reader("bytesio", list(range(1, 18)), 0, None, 16, buffer, list(range(50, 70)), 0, [8, 3], fl))
+            cases.append(mk_reader("bytesio", list(range(1, 12)), 2, None, 4, buffer, list(range(50, 61)), 1, [1, 1, 1], fl))
+            cases.append(mk_reader("bytesio", list(range(1, 12)), 0, [3, 0], 4, buffer, list(range(50, 61)), 0, [2, 4, 1], fl))
+    # ---- histories of reads on ONE content object ----
+    u8 = ["text", "plain", [["charset", "utf8"]]]
+    hist_contents = [(u8, [[0xE2, 0x82], [0xAC]]), (u8, [[0x41, 0xF0, 0x9F], [0x98, 0x80, 0x42]]),
+                     (u8, [[0xC3], [0xA9], [0xE2], [0x82, 0xAC]])]
+    if not quick:
+        hist_contents += [(u8, [[0xE2, 0x82]]), (["text", "plain", []], [[0xE2, 0x82], [0xAC]]), (u8, [[0xC3], [0x41]])]
+    seqs = hist_sequences(4 if quick else 5)
+    for ct, chunks in hist_contents:
+        for ops in seqs:
+            cases.append({"k": "hist", "ct": ct, "chunks": chunks, "oracle": None, "ops": ops})
+    fixed_hist = [
+        (u8, [[0xE2, 0x82], [0xAC]], [["new"], ["next", 0], ["astext"]]),                    # abandoned inside a sequence
+        (u8, [[0xE2, 0x82], [0xAC]], [["new"], ["new"], ["next", 0], ["next", 1], ["finish", 0], ["finish", 1]]),
+        (u8, [[0xE2, 0x82], [0xAC]], [["astext"], ["astext"]]),
+        (u8, [[0xE2, 0x82]], [["astext"], ["astext"], ["new"], ["finish", 0]]),              # a read that fails, then again
+        (["application", "octet-stream", []], [[1], [2]], [["new"], ["astext"], ["finish", 0]]),
+        (["text", "plain", [["charset", "no-such-codec"]]], [[1], [2]], [["new"], ["next", 0], ["finish", 0], ["astext"]]),
+        (u8, [], [["new"], ["finish", 0], ["finish", 0], ["astext"]]),
+    ]
+    for ct, chunks, ops in fixed_hist:
+        cases.append({"k": "hist", "ct": ct, "chunks": chunks, "oracle": None, "ops": ops})
+    for _ in range(500 if quick else 6000):
+        data = rand_bytes(rng, 10)
+        ct = rand_text_ct(rng)
+        chunks = rand_chunking(rng, data)
+        cases.append({"k": "hist", "ct": ct, "chunks": chunks, "oracle": None, "ops": rand_hist_ops(rng, len(chunks))})
+    # sampled extension: codecs Python knows and the model does not (BOM-detecting, BOM-stripping, stateful), on
+    # data a str.encode() of that codec produced; the whole-string decode is Python's answer carried by the case
+    for _ in range(250 if quick else 3000):
+        codec = rng.choice(ORACLE_CODECS)
+        text = "".join(chr(x) for x in rand_text(rng, 5) if codec != "cp1252" or x < 0x80)
+        data = list(text.encode(codec))
+        chunks = rand_chunking(rng, data)
+        ops = rand_hist_ops(rng, len(chunks)) if rng.random() < 0.7 else [["astext"], ["astext"], ["new"], ["finish", 0]]
+        cases.append({"k": "hist", "ct": ["text", "plain", [["charset", codec]]], "chunks": chunks,
+                      "oracle": oracle_of(data, codec), "ops": ops})
     # ---- snapshots ----
     for _ in range(350 if quick else 4000):
         c = rand_reader(rng)
@@ -943,6 +1263,8 @@ def nontrivial(case):
         return len(case["ca"]) + len(case["cb"]) >= 1
     if k == "mime":
         return len(case["ct"][2]) >= 1
+    if k == "hist":
+        return len(case["chunks"]) >= 2 and len(case["ops"]) >= 2
     return False
 
 
@@ -985,6 +1307,17 @@ def shrink(case):
                 yield dict(c, seek=[case["seek"][0] - (1 if case["seek"][0] > 0 else -1), case["seek"][1]])
         if case["chunk"] > 1:
             yield dict(c, chunk=case["chunk"] - 1)
+        if case.get("sizes"):
+            for s_ in _shorter(case["sizes"]):
+                yield dict(c, sizes=s_)
+        if case.get("flavour", "plain") != "plain":
+            yield dict(c, flavour="plain")
+    elif k == "hist":
+        for o in _shorter(case["ops"]):
+            yield dict(c, ops=o)
+        if case.get("oracle") is None:
+            for i in range(len(case["chunks"]) - 1):
+                yield dict(c, chunks=case["chunks"][:i] + [case["chunks"][i] + case["chunks"][i + 1]] + case["chunks"][i + 2:])
     elif k in ("snaplist", "readerlist"):
         for o in _shorter(case["ops"]):
             if all(op[0] != "replace" for op in o):
@@ -1031,12 +1364,23 @@ def distribution(cases):
             r["buffer_now"] += bool(c.get("buffer"))
             r["no_seek" if c["seek"] is None else ("seek_set" if c["seek"][1] == 0 else "seek_end")] += 1
             r["len_multiple_of_chunk"] += len(c["data0"]) % c["chunk"] == 0
+            if c.get("sizes"):
+                r["short_reads"] = r.get("short_reads", 0) + 1
+                fk = "short_reads:" + (c["kind"] if c["kind"] == "file" else c.get("flavour", "plain"))
+                r[fk] = r.get(fk, 0) + 1
             if c["seek"] is not None and c["seek"][1] == 0 and c["seek"][0] > len(c["data1"]):
                 r["start_past_eof"] += 1
         elif k in ("snaplist", "readerlist"):
             sl = d.setdefault(k, {})
             for key in ("src:" + c["src"], "via:" + c["via"] if k == "snaplist" else "buffer_now:%s" % c["buffer"]):
                 sl[key] = sl.get(key, 0) + 1
+        elif k == "hist":
+            h = d.setdefault("hist", {"oracle_codec": 0, "two_or_more_readers": 0, "abandoned_reader": 0, "ops": 0})
+            h["oracle_codec"] += c.get("oracle") is not None
+            news = sum(1 for op in c["ops"] if op[0] == "new")
+            h["two_or_more_readers"] += news >= 2
+            h["abandoned_reader"] += news > len(set(op[1] for op in c["ops"] if op[0] == "finish"))
+            h["ops"] += len(c["ops"])
         elif k == "mime":
             d["mime"]["wf_ct" if wf_ct(c["ct"]) else "F16"] += 1
         elif k == "chunks":
